@@ -5,7 +5,7 @@ Open Scope string_scope.
 Definition tpl_path_property : list string := ["%d"; "%s_%d"; "%s_%s"; "init_%s = data.sourceNode"; "init_%s"; "search_subjects[%s] with data.predicate as ""%s"" with data.object as %s"; "tmp_%s = nested_nodes with data.nodes as %s[""%s""]"; "%s = tmp_%s[_][_]"; "nodes_tmp = object.get(%s,""%s"",[])"; "nodes_tmp2 = nodes_array with data.nodes as nodes_tmp"; "%s = nodes_tmp2[_]"].
 Definition tpl_path_aggregate : list string := ["nodes = %s"; "path_set_rule"; "%s[nodes] {"; "} {"; "  "; "}"; "path_array_rule"; "%s = [ nodes | "; "} {"; "  "; "]"].
 Definition tpl_atom_count : list string := [">="; "<="; "=="; "propValues"; "%s_elem"; "#  querying path: "; "%s = %s with data.sourceNode as %s"; "%s = %s[_]"; "count(%s) %s %d"; "not count(%s) %s %d"; """negated"":%t,""condition"":""%s"",""actual"": count(%s),""expected"": %d"].
-Definition tpl_atom_pattern : list string := ["#  querying path: "; "%s_node"; "%s_array = %s with data.sourceNode as %s"; "%s = %s_array[_]"; "regex.match(%s,%s)"; "not regex.match(%s,%s)"; "pattern"; """negated"":%t,""expected"": %s,""actual"": %s"; "`"; """"; """"; "`"; "`"].
+Definition tpl_atom_pattern : list string := ["#  querying path: "; "%s_node"; "%s_array = %s with data.sourceNode as %s"; "%s = %s_array[_]"; "regex.match(%s,%s)"; "not regex.match(%s,%s)"; "﻿"; "\ufeff"; "pattern"; """negated"":%t,""expected"": %s,""actual"": %s"; "`"; "﻿"; """"; """"; "`"; "`"].
 Definition tpl_atom_contains_all : list string := ["%s_check"; "containsAll"; "#  querying path: "; "%s_array = %s with data.sourceNode as %s"; "count(%s_array) != 0 # validation applies if property was defined"; "%s_string_set = { mapped |
 "; "    original := %s_array[_]
 "; "    mapped := as_string(original)
@@ -40,8 +40,8 @@ Definition tpl_expression : list string := ["nested expressions cannot be genera
 "; "_result_%d"; "  %s := trace(""%s"",""%s"",%s,%s)"; "rego"; "$message"; "$message"; "message"; "  "; "msg_var_%d"; "  %s := object.get(%s, ""%s"", ""null"")"; "  message_vars := [%s]"; ","; "  message := sprintf(""%s"", message_vars)"; "  message := ""%s"""; "  %s := error(""%s"",%s, message ,[%s])"; ","; """"; "'"].
 Definition tpl_normalizer : list string := [""; "@graph"; "@id"; "@type"; "http://a.ml/vocabularies/document-source-maps#SourceMap"; "http://a.ml/vocabularies/document-source-maps#lexical"; "@ids"; "@types"; "@lexical"; "@id"; "http://a.ml/vocabularies/document-source-maps#element"; "http://a.ml/vocabularies/document-source-maps#value"; "range"; "uri"; "http://a.ml/vocabularies/document#BaseUnitSourceInformation"; "http://a.ml/vocabularies/document#rootLocation"; "http://a.ml/vocabularies/document#additionalLocations"; ""; "@id"; "http://a.ml/vocabularies/document#location"; "http://a.ml/vocabularies/document#elements"; "@id"].
 Definition tpl_iri_expander : list string := ["@"; "^[a-zA-Z-0-9\-_]+\.[\.(\\/)a-zA-Z-0-9\-_]+$"; "IRI %s is not in compact form"; "."; "\/"; "/"; "Term %s not present in context"].
-Definition tpl_quote : list string := ["\\"; "\"""; "\n"; "\r"; "\t"; "\u%04x"; """"; """"; ","; "set()"; "{ "; "}"; "["; "]"].
-Definition tpl_quote_all_literals : list string := ["'\\'"; "`\\`"; "'""'"; "`\""`"; "'\n'"; "`\n`"; "'\r'"; "`\r`"; "'\t'"; "`\t`"; "0x20"; "0x7f"; "`\u%04x`"].
+Definition tpl_quote : list string := ["\\"; "\"""; "\n"; "\r"; "\t"; "\u%04x"; "\ufeff"; """"; """"; ","; "set()"; "{ "; "}"; "["; "]"].
+Definition tpl_quote_all_literals : list string := ["'\\'"; "`\\`"; "'""'"; "`\""`"; "'\n'"; "`\n`"; "'\r'"; "`\r`"; "'\t'"; "`\t`"; "0x20"; "0x7f"; "`\u%04x`"; "'\ufeff'"; "`\ufeff`"].
 Definition tpl_message : list string := ["\{\{\s*([\w-]+\.[\w-]+)\s*}}"; "%"; "%%"; "%v"; "%"; "%%"].
 Definition tpl_names : list string := ["package %s
 "; "[^a-zA-Z0-9]+"; "_"; "profile_%s"; "report[""profile""] = ""%s"""].
